@@ -2,7 +2,7 @@ from datetime import datetime
 import io
 
 from pygments import lexers, formatters
-from termcolor import colored
+from termcolor import COLORS, RESET
 
 from pykdebugparser.callstacks_parser import CallstacksParser
 from pykdebugparser.kd_buf_parser import KdBufParser
@@ -17,6 +17,11 @@ color_formatter = formatters.TerminalTrueColorFormatter(style='stata-dark')
 DBG_TRACE = 7
 DBG_FSYSTEM = 3
 DBG_BSD = 4
+
+
+def colored(text, color):
+    # The color option of the parser decides, termcolor.colored() also looks at the terminal and at the environment.
+    return f'\033[{COLORS[color]}m{text}{RESET}'
 
 
 class PyKdebugParser:
